@@ -794,6 +794,42 @@ OBS o + 1
 ]
 
 
+def loop_counter_collisions():
+    """an EXISTING variable reused as the named counter of a `from` loop, for every (variable kind, bounds kind,
+    step: none or each numeric kind).  The loop stores start, start+step, ... into the variable, so this is only
+    sound when the variable's kind is the kind of start+step (and that is the kind of start)."""
+    nums = ["int", "bigint", "float", "byte"]
+    lit = {"int": ("0", "3", "1", "7"), "bigint": ("B0", "B3", "B1", "B7"), "float": ("0.5", "3.0", "1.0", "7.5"), "byte": ("0b0", "0b11", "0b1", "0b101")}
+    rank = {"byte": 0, "int": 1, "bigint": 2, "float": 3}
+
+    def arith(a, b):
+        if a == b:
+            return a
+        if "byte" in (a, b):
+            return b if a == "byte" else a
+        return a if rank[a] > rank[b] else b
+
+    out = []
+    for kv in nums:
+        for kb in nums:
+            for ks in [None] + nums:
+                stepk = ks or "int"
+                produced = arith(kb, stepk)
+                ok = produced == kb and kv == kb
+                step = "" if ks is None else " step %s" % lit[ks][2]
+                src = "count: %s = %s\nxs: [int...] = [10, 20, 30, 40, 50]\nfrom %s to %s%s, count {\n\tOBS count\n}\nOBS count\n" % (
+                    kv, lit[kv][3], lit[kb][0], lit[kb][1], step)
+                if kv == "int":
+                    src += "OBS xs[count]\nOBS count << 1\n"
+                else:
+                    src += "OBS count + count\n"
+                out.append(("loop-counter-reuses-%s-variable:%s-bounds:%s-step" % (kv, kb, ks or "no"), "accept" if ok else "reject", src))
+    return out
+
+
+CATALOGUE += loop_counter_collisions()
+
+
 def expand(src):
     """replace `OBS <expr>` lines by the observation protocol"""
     out = []
